@@ -787,6 +787,19 @@ theorem proofOf_not_elided {T : List Digest} {e x y : Env}
     · have := elidableHit_true_iff.mpr ⟨ht, hi⟩
       rw [h2] at this; cases this
 
+/-- a position with nothing hit above it by either pass survives both -/
+theorem proofOf_at_of_clear {T : List Digest} {e y : Env} {p : Path} (hy : e.at p = some y)
+    (hn : ∀ q z, q <+: p → q ≠ p → e.at q = some z →
+      revealHit T e z.digest = false ∧ elidableHit T e z.digest = false) :
+    (proofOf T e).at p = some (prune (elidableHit T e) (prune (revealHit T e) y)) := by
+  have h1 : (prune (revealHit T e) e).at p = some (prune (revealHit T e) y) :=
+    prune_at_of_clear hy (fun q z hq hne hz => (hn q z hq hne hz).1)
+  apply prune_at_of_clear h1
+  intro q z hq hne hz
+  obtain ⟨z0, hz0, hzz0, _⟩ := prune_at_inv hz
+  rw [hzz0, prune_digest]
+  exact (hn q z0 hq hne hz0).2
+
 /-! ### minimality by positions -/
 
 /-- a position of `e` holding an element whose digest is a target -/
@@ -903,5 +916,124 @@ theorem proofOf_above_target {T : List Digest} {e x : Env} {p : Path} (hF : Dige
     intro heq
     have := congrArg List.length heq
     simp at this
+
+/-! ### samples (a toy hash keeps the digests small; the theorems hold for every hash) -/
+
+namespace C12Sample
+
+/-- toy hash: the sum of the bytes -/
+def sumH : Hash := ⟨fun b => ⟨b.foldl (fun a x => a + x.toNat) 0⟩⟩
+
+def trivA : Aead := ⟨fun _ _ _ _ => ([], []), fun _ _ _ _ _ => none⟩
+def trivZ : Deflate := ⟨id, some, fun _ => 0⟩
+
+def lf (n : Nat) : Env := newLeaf sumH (.uint n)
+/-- `1: 2`, digest 3 -/
+def a1 : Env := newAssertion sumH (lf 1) (lf 2)
+/-- `1: 4`, digest 5 -/
+def a2 : Env := newAssertion sumH (lf 1) (lf 4)
+/-- `7 [1: 2, 1: 4]`, digest 15 -/
+def e0 : Env := .node (lf 7) [a1, a2] (sumH.ofDigests ((lf 7).digest :: [a1, a2].map Env.digest))
+/-- targets: the leaf `2`, the assertion `1: 2` that contains it, and the leaf `4` -/
+def T0 : List Digest := [⟨2⟩, ⟨3⟩, ⟨4⟩]
+
+theorem a1_digest : a1.digest = ⟨3⟩ := by decide +kernel
+theorem a2_digest : a2.digest = ⟨5⟩ := by decide +kernel
+theorem e0_digest : e0.digest = ⟨15⟩ := by decide +kernel
+
+theorem wf_a1 : WF sumH a1 := by simp only [a1, lf, newAssertion, newLeaf, WF, and_self]
+theorem wf_a2 : WF sumH a2 := by simp only [a2, lf, newAssertion, newLeaf, WF, and_self]
+theorem canon_a1 : Canon a1 := by simp only [a1, lf, newAssertion, newLeaf, Canon, and_self]
+theorem canon_a2 : Canon a2 := by simp only [a2, lf, newAssertion, newLeaf, Canon, and_self]
+
+theorem inv_e0 : Inv sumH e0 := by
+  refine ⟨?_, ?_⟩
+  · simp only [e0, WF, WFList, wf_a1, wf_a2, and_true]
+    simp only [lf, newLeaf, WF]
+  · have hasc : AscDigests [a1, a2] := by
+      simp only [AscDigests, List.pairwise_cons, List.mem_cons, List.not_mem_nil, or_false,
+        forall_eq, a1_digest, a2_digest, List.Pairwise.nil, and_true, false_imp_iff, implies_true]
+      decide
+    have hslot : ∀ a ∈ [a1, a2], a.slotOk = true := by
+      intro a ha
+      simp only [List.mem_cons, List.not_mem_nil, or_false] at ha
+      rcases ha with rfl | rfl <;> rfl
+    simp only [e0, Canon, CanonList]
+    exact ⟨by simp only [lf, newLeaf, Canon], ⟨canon_a1, canon_a2, trivial⟩, by simp, hasc, hslot⟩
+
+theorem all_e0 : T0.all (memD (revealSets T0 [] e0)) = true := by decide +kernel
+theorem proof_e0 (A : Aead) (Z : Deflate) :
+    proofContainsSet sumH A Z e0 T0 = .ok (some (proofOf T0 e0)) := by
+  rw [proofContainsSet_eq sumH A Z e0 T0 inv_e0.1 (Canon.shape e0 inv_e0.2), all_e0]; rfl
+theorem faithful_e0 : DigestFaithful e0 := by decide +kernel
+theorem noObscured_e0 : NoObscuredInterior T0 e0 := by decide +kernel
+
+/-- F5b: the subject is a compressed element carrying the digest of the assertion `1: 2` -/
+def eB : Env :=
+  .node (.compressed ⟨0, 0, []⟩ ⟨3⟩) [a1] (sumH.ofDigests (⟨3⟩ :: [a1].map Env.digest))
+def TB : List Digest := [⟨2⟩]
+
+theorem inv_eB : Inv sumH eB := by
+  refine ⟨?_, ?_⟩
+  · simp only [eB, WF, WFList, wf_a1, and_true, Env.digest]
+  · simp only [eB, Canon, CanonList, canon_a1, and_true, true_and]
+    refine ⟨by simp [Digest.Valid], by simp, by simp [AscDigests], ?_⟩
+    intro a ha
+    simp only [List.mem_cons, List.not_mem_nil, or_false] at ha
+    subst ha; rfl
+
+theorem faithful_eB : DigestFaithful eB := by decide +kernel
+theorem all_eB : TB.all (memD (revealSets TB [] eB)) = true := by decide +kernel
+
+/-- the compressed subject stays in the proof -/
+theorem proof_eB_subj : (proofOf TB eB).at [.subj] = some (.compressed ⟨0, 0, []⟩ ⟨3⟩) := by
+  have h1 : revealHit TB eB eB.digest = false := by decide +kernel
+  have h2 : revealHit TB eB ⟨3⟩ = false := by decide +kernel
+  have h3 : elidableHit TB eB eB.digest = false := by decide +kernel
+  have h4 : elidableHit TB eB ⟨3⟩ = false := by decide +kernel
+  have hc : eB.child .subj = some (.compressed ⟨0, 0, []⟩ ⟨3⟩) := rfl
+  have hy : eB.at [.subj] = some (.compressed ⟨0, 0, []⟩ ⟨3⟩) := rfl
+  rw [proofOf_at_of_clear hy]
+  · simp [prune, h2, h4]
+  · intro q z hq hne hz
+    have hq' : q = [] := by
+      rcases List.prefix_cons_iff.mp hq with rfl | ⟨t, rfl, ht⟩
+      · rfl
+      · have := List.prefix_nil.mp ht; subst this; exact absurd rfl hne
+    subst hq'
+    simp only [Env.at_nil, Option.some.injEq] at hz; subst hz
+    exact ⟨h1, h3⟩
+
+theorem not_above_eB : ¬ AboveTarget TB eB [.subj] := by
+  rintro ⟨t, ⟨r, rfl⟩, hne, y, hy, _⟩
+  cases r with
+  | nil => simp at hne
+  | cons st r =>
+    have : eB.at ([Step.subj] ++ st :: r) = none := by
+      simp only [List.cons_append, List.nil_append, eB]
+      rw [Env.at_cons_of_child (c := .compressed ⟨0, 0, []⟩ ⟨3⟩) rfl]
+      exact Env.at_cons_none_of_isObscured rfl st r
+    rw [this] at hy; cases hy
+
+/-- `WF` alone is not enough: a node with an empty assertion list (never produced by the
+library) makes the rebuilding `assert!` fire -/
+def eP : Env := .node (.leaf (.uint 7) ⟨7⟩) [] ⟨7⟩
+
+theorem wf_eP : WF sumH eP := by
+  simp only [eP, WF, WFList, List.map_nil, Env.digest, true_and]
+  exact ⟨by decide +kernel, by decide +kernel⟩
+
+theorem proofContainsSet_eP (A : Aead) (Z : Deflate) :
+    proofContainsSet sumH A Z eP [⟨7⟩] = .panic "envelope.rs:new_with_unchecked_assertions:assert" := by
+  have hR : memD (revealSets [⟨7⟩] [] eP) ⟨7⟩ = true := by decide +kernel
+  simp only [proofContainsSet, List.all_cons, List.all_nil, hR, Bool.and_true, Bool.not_true,
+    Bool.false_eq_true, if_false]
+  generalize memD (revealSets [⟨7⟩] [] eP) = R at hR
+  have h1 : elideSet sumH A Z R true .elide eP
+      = .panic "envelope.rs:new_with_unchecked_assertions:assert" := by
+    simp [eP, elideSet, elideSetList, newNodeUnchecked, hR, Env.digest]
+  rw [h1]
+
+end C12Sample
 
 end EnvVerif
